@@ -1,7 +1,7 @@
 (* C08: error reporting for API misuse, and absence of panics on well-formed inputs. *)
 From Coq Require Import ZArith NArith List Bool Floats Lia.
 From OX Require Import Numerics.FloatBits Gen.Consts Planners.Model Proofs.Basics Proofs.ValidInv Proofs.Prefix
-  Proofs.TreeInv Proofs.Links Proofs.PathFacts Proofs.ApiValid Proofs.PrmInv Proofs.ApiStruct.
+  Proofs.TreeInv Proofs.Links Proofs.PathFacts Proofs.ApiValid Proofs.PrmInv Proofs.ApiStruct Proofs.StarInv Proofs.StarSpec.
 Import ListNotations.
 Open Scope nat_scope.
 
@@ -254,6 +254,96 @@ Proof.
   - intros E; inversion E; constructor.
   - destruct (rrtc_step s0 c) as [s1 r] eqn:E1. destruct (run rrtc_step s1 cs) as [s2 rs2] eqn:E2.
     intros E; inversion E; subst. destruct (rrtc_step_good _ _ _ _ H0 E1) as [H1 Hg].
+    constructor; [exact Hg|]. eapply IH; eauto.
+Qed.
+
+(* ---- RRT*: no panic (index / unwrap) on well-formed inputs; termination of extraction is C15 ---- *)
+Notation link_star := (link_star dist interp lvs valid maxd radius).
+
+Lemma walk_no_index_panic : forall (R : S -> S -> Prop) t, LinkInv R t -> forall fuel i acc,
+  i < length t -> walk t fuel i acc <> Some None.
+Proof.
+  intros R t Ht fuel. induction fuel as [|f IH]; intros i acc Hi; cbn [walk]; [discriminate|].
+  destruct (nth_error t i) as [n|] eqn:En; [|apply nth_error_None in En; lia].
+  destruct (par n) as [p|] eqn:Ep; [|discriminate].
+  apply IH. destruct (Ht i n En) as [_ H2]. destruct (H2 p Ep) as (np & Hnp & _).
+  apply nth_error_Some. rewrite Hnp; discriminate.
+Qed.
+
+Lemma rrtstar_iter_no_panic : forall v t q t', t <> [] -> rrtstar_iter v t q <> (t', StarPanic).
+Proof.
+  intros v t q t' Hne. unfold Model.rrtstar_iter.
+  destruct (nearest dist t q) as [[i d]|] eqn:En.
+  2:{ unfold nearest in En. destruct t; [contradiction|discriminate]. }
+  destruct (nearest_in dist _ _ _ _ En) as (nn & Hnn & _). rewrite Hnn.
+  destruct (steer interp maxd (st nn) q d) as [qn re].
+  destruct (negb _); [discriminate|].
+  destruct (choose_parent_some dist interp lvs valid v t qn (neighbours dist radius t qn) i (cost_via dist qn nn)) as (best & bc & ->).
+  { intros j Hj. destruct (neighbours_in dist radius _ _ _ Hj) as (nj & Hnj & _). exists nj; exact Hnj. }
+  destruct (rewire_some dist interp lvs valid v (neighbours dist radius t qn) (t ++ [mkNode S qn (Some best) bc]) (length t)
+              (mkNode S qn (Some best) bc)) as [t2 ->].
+  { apply nth_error_app_last. }
+  { intros j Hj. destruct (neighbours_in dist radius _ _ _ Hj) as (nj & Hnj & _).
+    assert (j < length t) by (apply nth_error_Some; rewrite Hnj; discriminate).
+    split; [lia|]. exists nj. rewrite nth_error_app1 by lia. exact Hnj. }
+  discriminate.
+Qed.
+
+Lemma rrtstar_loop_no_panic : forall fuel p v t g pos t' pos' r,
+  t <> [] -> LinkInv (link_star v) t -> rrtstar_loop fuel p v t g pos = (t', pos', r) -> r <> RPanic.
+Proof.
+  induction fuel as [|f IH]; intros p v t g pos t' pos' r Hne HL; cbn [Model.rrtstar_loop].
+  - intros E; inversion E; discriminate.
+  - destruct (draw_ok p g pos) as (q & pos1 & ->).
+    destruct (rrtstar_iter v t q) as [t1 er] eqn:Ee.
+    pose proof (rrtstar_iter_inv dist interp lvs valid maxd radius _ _ _ _ _ HL Ee) as HL1.
+    pose proof (extends_nonempty _ _ (rrtstar_iter_extends dist interp lvs valid maxd radius _ _ _ _ _ Ee) Hne) as Hne1.
+    destruct er as [| |qn].
+    + exfalso. exact (rrtstar_iter_no_panic _ _ _ _ Hne Ee).
+    + apply IH; assumption.
+    + destruct (goal p qn); [|apply IH; assumption].
+      intros E; inversion E; subst. unfold resp_of_path, reconstruct.
+      assert (Hi : length t' - 1 < length t') by (destruct t'; [contradiction|cbn; lia]).
+      pose proof (walk_no_index_panic _ _ HL1 (Datatypes.S (length t')) (length t' - 1) [] Hi) as Hw.
+      destruct (walk t' _ _ _) as [[pp|]|]; [discriminate|contradiction|discriminate].
+Qed.
+
+Definition InvNS (s : pstate) : Prop :=
+  match pd s, vc s with
+  | Some p, Some v => LinkInv (link_star v) (tree s) /\ tree s <> []
+  | None, None => True
+  | _, _ => False
+  end.
+
+Lemma rrtstar_step_no_panic : forall s c s' r, InvNS s -> rrtstar_step s c = (s', r) -> InvNS s' /\ r <> RPanic.
+Proof.
+  intros s c s' r HN. destruct c as [p v|b|b|p]; cbn [Model.rrtstar_step].
+  - unfold tree_setup. destruct (starts p) as [|s0 rest] eqn:Es; [exfalso; eapply Wst; eauto|].
+    intros E; inversion E; subst. split; [|discriminate]. unfold InvNS; cbn. split; [apply LinkInv_root|discriminate].
+  - intros E. pose proof E as E0. apply (tree_solve_cases valid starts) in E. destruct E as [[-> Hnp]|E].
+    + split; [exact HN|]. unfold tree_solve in E0. unfold InvNS in HN.
+      destruct (pd s) as [p|]; destruct (vc s) as [v|]; try contradiction; [|inversion E0; discriminate].
+      destruct (starts p) as [|s0 rest] eqn:Es; [exfalso; eapply Wst; eauto|].
+      destruct (negb (valid v s0)); [inversion E0; discriminate|].
+      destruct (take_rng s) as [g pos]. destruct (Model.rrtstar_loop _ _ _ _ _ _ _ _ _ _ _ _ _ _ _ _ _) as [[t' pos'] r'] eqn:El.
+      inversion E0; subst. destruct HN as [HL Hne]. eapply rrtstar_loop_no_panic; eauto.
+    + destruct E as (p & v & s0 & rest & g & pos & t' & pos' & Ep & Ev & Es & Es0 & El & Ep' & Ev' & Et' & _).
+      unfold InvNS in *. rewrite Ep, Ev in HN. rewrite Ep', Ev', Et'. destruct HN as [HL Hne].
+      split; [split|eapply rrtstar_loop_no_panic; eauto].
+      * eapply (rrtstar_loop_inv dist interp lvs valid goal u64_at usample gsample maxd bias radius); eauto.
+      * eapply extends_nonempty; [eapply rrtstar_loop_extends; eauto|exact Hne].
+  - intros E; inversion E; subst. split; [exact HN|discriminate].
+  - intros E; inversion E; subst. split; [exact HN|discriminate].
+Qed.
+
+Theorem rrtstar_never_panics : forall sd cs s rs,
+  run rrtstar_step (new_planner sd) cs = (s, rs) -> Forall (fun r => r <> RPanic) rs.
+Proof.
+  intros sd cs. generalize (new_planner (S:=S) (V:=V) (P:=P) sd), (I : InvNS (new_planner sd)).
+  induction cs as [|c cs IH]; intros s0 H0 s rs; cbn [run].
+  - intros E; inversion E; constructor.
+  - destruct (rrtstar_step s0 c) as [s1 r] eqn:E1. destruct (run rrtstar_step s1 cs) as [s2 rs2] eqn:E2.
+    intros E; inversion E; subst. destruct (rrtstar_step_no_panic _ _ _ _ H0 E1) as [H1 Hg].
     constructor; [exact Hg|]. eapply IH; eauto.
 Qed.
 
